@@ -190,6 +190,7 @@ package vm
 // C04: this construct BINDS its names (Define in the scope at hand); it never sets an existing binding of an enclosing scope: a call of
 // Env.SetValue would appear in the activation trace and break the trace clauses below
 //@ traces (*Env).SetValue
+//@ ensures [C04] noset: forall k int :: 0 <= k && k < ncalls() ==> !calleeIs(k, "env.(*Env).SetValue")
 //@ props C04 C08 C02 C09
 //@ like template.evalStmt
 //@ requires stmt != nil
@@ -243,6 +244,8 @@ package vm
 // C04: this construct BINDS its names (Define in the scope at hand); it never sets an existing binding of an enclosing scope: a call of
 // Env.SetValue would appear in the activation trace and break the trace clauses below
 //@ traces (*Env).SetValue
+//@ ensures [C04] noset: forall k int :: 0 <= k && k < ncalls() ==> !calleeIs(k, "env.(*Env).SetValue")
+//@ loop 0 invariant [C04] noset: forall k int :: 0 <= k && k < ncalls() ==> !calleeIs(k, "env.(*Env).SetValue")
 //@ props C04 C08 C02
 //@ traced_optin value -> runInfo.err; runInfo.rv
 //@ requires [C01 C20] kind: rvValid(value) && (rvKind(value) == reflect.Slice || rvKind(value) == reflect.Array)
@@ -268,6 +271,8 @@ package vm
 // C04: this construct BINDS its names (Define in the scope at hand); it never sets an existing binding of an enclosing scope: a call of
 // Env.SetValue would appear in the activation trace and break the trace clauses below
 //@ traces (*Env).SetValue
+//@ ensures [C04] noset: forall k int :: 0 <= k && k < ncalls() ==> !calleeIs(k, "env.(*Env).SetValue")
+//@ loop 0 invariant [C04] noset: forall k int :: 0 <= k && k < ncalls() ==> !calleeIs(k, "env.(*Env).SetValue")
 //@ props C04 C08 C02
 //@ traced_optin value -> runInfo.err; runInfo.rv
 //@ requires [C01 C20] kind: rvValid(value) && rvKind(value) == reflect.Map
@@ -292,6 +297,8 @@ package vm
 // C04: this construct BINDS its names (Define in the scope at hand); it never sets an existing binding of an enclosing scope: a call of
 // Env.SetValue would appear in the activation trace and break the trace clauses below
 //@ traces (*Env).SetValue
+//@ ensures [C04] noset: forall k int :: 0 <= k && k < ncalls() ==> !calleeIs(k, "env.(*Env).SetValue")
+//@ loop 0 invariant [C04] noset: forall k int :: 0 <= k && k < ncalls() ==> !calleeIs(k, "env.(*Env).SetValue")
 //@ props C04 C08 C02
 //@ traced_optin value -> runInfo.err; runInfo.rv
 //@ requires [C01 C20] kind: rvValid(value) && rvKind(value) == reflect.Chan
@@ -336,6 +343,7 @@ package vm
 // C04: this construct BINDS its names (Define in the scope at hand); it never sets an existing binding of an enclosing scope: a call of
 // Env.SetValue would appear in the activation trace and break the trace clauses below
 //@ traces (*Env).SetValue
+//@ ensures [C04] noset: forall k int :: 0 <= k && k < ncalls() ==> !calleeIs(k, "env.(*Env).SetValue")
 //@ props C04 C08 C02
 //@ like template.evalStmt
 //@ requires stmt != nil
